@@ -48,7 +48,7 @@ def render(t, uni, backend, style=None, md=None):
             return seqop(k, r(ch[0]), [])
         if k == "Aggregate":
             return seqop(k, r(ch[0]), [r(ch[1]), "lambda %s, %s: %s" % (nm(t["a"]), nm(t["b"]), r(ch[2]))])
-        if k == "Coll":
+        if k in ("Coll", "Single"):
             return "%s.%s(%r)" % (r(ch[0]), b["colls"][t["a"]]["py"], t["b"])
         if k == "Meth":
             return "%s.%s(%s)" % (r(ch[0]), t["a"], ", ".join(r(c) for c in ch[1:]))
@@ -148,8 +148,8 @@ def compact(t):
     k, ch = t["k"], t["ch"]
     inner = ",".join(compact(c) for c in ch)
     tag = k
-    if k in ("Meth", "Coll", "Bin", "Cmp", "Un", "Math", "Var", "Str", "UserFn"):
-        tag += ":" + t["a"] + (("/" + t["b"]) if k == "Coll" else "")
+    if k in ("Meth", "Coll", "Single", "Bin", "Cmp", "Un", "Math", "Var", "Str", "UserFn"):
+        tag += ":" + t["a"] + (("/" + t["b"]) if k in ("Coll", "Single") else "")
     if k == "Const":
         tag += ":%s:%d/%d" % (t["a"], t["n"], t["d"])
     if k == "TupIdx":
